@@ -39,6 +39,7 @@ fn main() {
 	let summary = match (args[1].as_str(), args[2].as_str()) {
 		("cuts", "C12") => c12::run(&args[3], &args[4], thorough),
 		("steps", "C13") => c13::steps(&args[3]),
+		("cachetrace", "C13") => c13::cache_trace(&args[3], &args[4], seed, thorough),
 		("stress", "C13") => c13::stress(&args[3], &args[4], seed, thorough),
 		("replay", "C14") => c14::replay(&args[3], &args[4]),
 		("record", "C14") => c14::record(&args[3], seed, thorough),
